@@ -1324,7 +1324,46 @@ def ntlm_keys(ctx, mir, stats):
     return obs
 
 
+UNSEAL_TAMPER_NATIVE = _native("verif_replay_ntlm_unseal_tamper", "src/nla/ntlm.rs", """
+        let (ck, sk, csig, ssig) = (b"client-seal-key-".to_vec(), b"server-seal-key-".to_vec(), b"client-sign-key-".to_vec(), b"server-sign-key-".to_vec());
+        let mut client = NTLMv2SecurityInterface::new(Rc4::new(&ck), Rc4::new(&sk), csig.clone(), ssig.clone());
+        let token = client.gss_wrapex(b"public key + 1").unwrap();
+        let fresh = || NTLMv2SecurityInterface::new(Rc4::new(&sk), Rc4::new(&ck), ssig.clone(), csig.clone());
+        assert_eq!(fresh().gss_unwrapex(&token).unwrap(), b"public key + 1".to_vec());
+        // every single-bit flip
+        for bit in 0..token.len() * 8 {
+            let mut t = token.clone();
+            t[bit / 8] ^= 1 << (bit % 8);
+            assert!(fresh().gss_unwrapex(&t).is_err(), "single-bit flip {} accepted", bit);
+        }
+        // two checksum bytes altered by the same difference (cancels under xor-folding)
+        for i in 4..12 { for j in (i + 1)..12 { for d in [1u8, 0x80, 0xff].iter() {
+            let mut t = token.clone();
+            t[i] ^= *d; t[j] ^= *d;
+            assert!(fresh().gss_unwrapex(&t).is_err(), "altered checksum bytes {} and {} accepted", i, j);
+        } } }
+        // truncations and extensions
+        for n in 0..token.len() { assert!(fresh().gss_unwrapex(&token[..n]).is_err(), "truncation to {} accepted", n); }
+        let mut longer = token.clone(); longer.push(0);
+        assert!(fresh().gss_unwrapex(&longer).is_err(), "extension accepted");
+        // reflection of the client's own token under the client's receive keys
+        let mut me = NTLMv2SecurityInterface::new(Rc4::new(&ck), Rc4::new(&sk), csig.clone(), ssig.clone());
+        assert!(me.gss_unwrapex(&token).is_err(), "reflected token accepted");""")
+
+
 def unwrap_order(ctx, mir, stats):
+    try:
+        return _unwrap_order(ctx, mir, stats)
+    except Inconclusive as e:
+        if "shape not recognised" not in str(e) and "not branched" not in str(e):
+            raise
+        f = find_fn(mir, r"ntlm::<impl at src/nla/ntlm\.rs[^>]*>::gss_unwrapex$")
+        return [{"id": "unwrap:recognised-comparison", "ok": False, "functions": [f.name], "needs_native": True, "native": UNSEAL_TAMPER_NATIVE,
+                 "detail": "gss_unwrapex no longer compares the decrypted checksum with the HMAC prefix through slice equality (%s): confirmed only if the native tamper battery (bit flips, cancelling byte pairs, truncation, extension, reflection) finds an accepted forgery" % str(e)[:160],
+                 "where": f.name}]
+
+
+def _unwrap_order(ctx, mir, stats):
     f = find_fn(mir, r"ntlm::<impl at src/nla/ntlm\.rs[^>]*>::gss_unwrapex$")
     obs = []
     procs = call_blocks(f, r"rc4::Rc4::process$")
